@@ -23,13 +23,15 @@ open CelmaVerif CelmaVerif.ProgArgs CelmaVerif.Keys
 /-- Every rule attached inside a member handler is enforced at the end of a group evaluation: if
     `Groups::evalArguments` returns, then for every member the mandatory/cardinality check, the
     check for arguments still required by a `requires` constraint, and the end conditions of the
-    member's handler constraints (all-of, one-of) have passed — the three checks `endChecks` makes
-    for a stand-alone handler, on the member's own configuration and state.
+    member's handler constraints (all-of, one-of, and the value constraints differ / disjoint on the
+    member's own destinations) have passed — the three checks `endChecks` makes for a stand-alone
+    handler, on the member's own configuration and state.
     (Pinned commit: only the first of the three was made; `fix:` 4bb8db8.) -/
 theorem C08_end_checks (cfg : Cfg) (inits : List DVal) (argMember globMember order : List Nat) (argv : List Word)
     (ms : List (Cfg × HState)) (h : groupsEval cfg inits argMember globMember order argv = .ok ms) :
     ∀ m ∈ ms, checkMandatoryCardinality m.1.args m.2.args = .ok () ∧
-      pendingCheckRequired m.2.pending = .ok () ∧ checkGlobals m.1.globals m.2.globals = .ok () :=
+      pendingCheckRequired m.2.pending = .ok () ∧
+      checkGlobals m.1.args m.2.args m.1.globals m.2.globals = .ok () :=
   groupsEval_end_checks cfg inits argMember globMember order argv ms h
 
 /-- … and these are exactly the checks of stand-alone evaluation: `endChecks` of a handler returns
@@ -38,7 +40,8 @@ theorem C08_end_checks (cfg : Cfg) (inits : List DVal) (argMember globMember ord
 theorem C08_end_checks_standalone (cfg : Cfg) (h h' : HState) :
     endChecks cfg h = .ok h' ↔
       h' = { h with lastArg := none } ∧ checkMandatoryCardinality cfg.args h.args = .ok () ∧
-      pendingCheckRequired h.pending = .ok () ∧ checkGlobals cfg.globals h.globals = .ok () := by
+      pendingCheckRequired h.pending = .ok () ∧
+      checkGlobals cfg.args h.args cfg.globals h.globals = .ok () := by
   rw [endChecks_ok_iff, memberEndChecks_ok_iff]
 
 /-- A group with a single member that owns all arguments and all handler constraints behaves like
@@ -163,7 +166,9 @@ theorem C08_finding_group_abbreviation :
     (`GroupWellFormed`): abbreviations are off; the keys of all arguments are pairwise non-clashing;
     there is no positional argument; a key mentioned in a `requires`/`excludes` constraint of an
     argument designates no argument and no constraint key of another member; the arguments listed in
-    a handler constraint belong to the member that owns the constraint; every member is registered
+    a handler constraint belong to the member that owns the constraint; the argument list of a value
+    constraint (differ / disjoint) is as `validValueArguments` leaves it, over int / string resp. two
+    list arguments (`Cfg.ValueArgsOk`); every member is registered
     once and every argument / handler constraint belongs to a registered member.  One initial value
     per argument.  The command line contains neither the word `!` nor a comma (`ArgvPlain`).
     Then (`GroupAgrees`):
@@ -171,7 +176,8 @@ theorem C08_finding_group_abbreviation :
       the order of `cfg.args` (`groupDests`) carry exactly the argument states (value, value-set and
       increment flags, cardinality counter) of the single handler;
     * the single handler throws `e` ⇒ the group throws `e` as well — mandatory, cardinality, value
-      checks, `requires`/`excludes`, all-of/any-of/one-of included — except that an unknown argument
+      checks, `requires`/`excludes`, all-of/any-of/one-of/differ/disjoint included — except that an
+      unknown argument
       is a `std::invalid_argument` for `Handler` and a `std::runtime_error` for `Groups`;
     * hence the group accepts exactly when the single handler does.
     What is missing for the full statement: abbreviations (refuted by
@@ -323,6 +329,16 @@ example : (evalArguments exCfg (exCfg.initState exInits) {} exArgvStale).isOk = 
 example : (match groupsEvalHead exCfg exInits exArgMember exGlobMember [0, 1] exArgvStale with
     | .ok ms => (groupDests exCfg exArgMember [0, 1] ms).map (·.2.dest)
     | _ => []) = [.flag true, .flag false, .vec [1, 2, 3], .str []] := by decide +kernel
+
+-- a value constraint inside a member: `-p` / `-b` (int, member 0) must differ, `-q` (flag) is member 1;
+-- `-p 3 -q -b 3` is rejected by the group as by the single handler, `-p 3 -q -b 4` accepted by both
+example : GroupAgrees (evalArguments exCfgV (exCfgV.initState exInitsV) {} exArgvVSame)
+    (groupDests exCfgV [0, 0, 1] [1, 0] <$> groupsEval exCfgV exInitsV [0, 0, 1] [0] [1, 0] exArgvVSame) ∧
+    (match groupsEval exCfgV exInitsV [0, 0, 1] [0] [1, 0] exArgvVSame with
+      | .throw .runtime_error => true | _ => false) = true := by decide +kernel
+example : GroupAgrees (evalArguments exCfgV (exCfgV.initState exInitsV) {} exArgvVDiff)
+    (groupDests exCfgV [0, 0, 1] [1, 0] <$> groupsEval exCfgV exInitsV [0, 0, 1] [0] [1, 0] exArgvVDiff) ∧
+    (groupsEval exCfgV exInitsV [0, 0, 1] [0] [1, 0] exArgvVDiff).isOk = true := by decide +kernel
 
 -- dispatch: `-y` goes to member 0 in either registration order; cross check: `-m` cannot be added to member 0
 example : groupAddArgument [(kx, 0), (ky, 1)] [[⟨some 'm', []⟩, ⟨none, "name".toList⟩]] ⟨some 'm', "max".toList⟩ 2 =
